@@ -326,6 +326,12 @@ func worker(p *Prop, tier string) (code int) {
 	hashesNT := map[uint64]struct{}{}
 	states := map[uint64]struct{}{}
 	bySig := map[string]*foundViolation{}
+	knownSigs := map[string]bool{}
+	for _, kf := range loadKnown() {
+		if kf.Status == "known" {
+			knownSigs[kf.Signature] = true
+		}
+	}
 	defer func() {
 		if r := recover(); r != nil {
 			if he, ok := r.(HarnessError); ok {
@@ -461,6 +467,11 @@ func worker(p *Prop, tier string) (code int) {
 			res.Violations = append(res.Violations, fv)
 			seq := c.Src.Seq()
 			fv.OrigLen = len(seq)
+			if knownSigs[sig] {
+				// a listed finding: reported as KNOWN-FINDING, not minimised again
+				fv.Seq, fv.Draws, fv.Scenario, fv.Reproduced = seq, c.Src.Render(), c.Log, true
+				continue
+			}
 			min := Shrink(seq, func(cand []uint64) bool {
 				c2 := NewCtx(NewReplay(cand))
 				c2.Tier, c2.Dir, c2.Replay = tier, wd, true
